@@ -164,11 +164,15 @@ func c12SpecStep(vals []c12V, T *big.Int) int {
 	return best
 }
 
+// specification of IncrementProposerPriority(k): k single rounds, each preceded by the
+// normalisation (scale into the window 2T, centre) - so that k rounds in one call are k calls of
+// one round (C12-P1)
 func c12SpecIncrement(vals []c12V, k int) (prop common.Address) {
 	T := c12Total(vals)
-	c12SpecRescale(vals, new(big.Int).Mul(big.NewInt(2), T))
-	c12SpecCentre(vals)
+	D := new(big.Int).Mul(big.NewInt(2), T)
 	for i := 0; i < k; i++ {
+		c12SpecRescale(vals, D)
+		c12SpecCentre(vals)
 		prop = vals[c12SpecStep(vals, T)].addr
 	}
 	return prop
@@ -629,8 +633,9 @@ func c12CheckAfterInc(o *vfOut, vs *ValidatorSet, k int64, ctx func() string) {
 			break
 		}
 	}
-	if k == 1 {
-		// window: 2T re-established before the round, one round widens it by at most maxPower-minPower
+	if k >= 1 {
+		// window: 2T re-established before EVERY round (also inside a k-round call), one round widens
+		// it by at most maxPower-minPower
 		diff, _, _ := c12Spread(vals)
 		wmax, wmin := new(big.Int).Set(vals[0].w), new(big.Int).Set(vals[0].w)
 		for _, v := range vals {
@@ -647,6 +652,98 @@ func c12CheckAfterInc(o *vfOut, vs *ValidatorSet, k int64, ctx func() string) {
 			o.Viol("window-exceeded-after-increment", fmt.Sprintf("max-min=%s 2T+wmax-wmin=%s %s", diff, bound, ctx()))
 		}
 	}
+}
+
+// round skipping (C12-P1): a node that jumps k rounds calls IncrementProposerPriority(k) on a copy,
+// a node that enters every round calls IncrementProposerPriority(1) k times; both must hold the
+// same priorities and the same proposer, whatever the set
+func c12CheckRoundSkip(o *vfOut, vs *ValidatorSet, k int64, ctx func() string) {
+	if len(vs.Validators) == 0 || k < 2 {
+		return
+	}
+	skip, step := vs.Copy(), vs.Copy()
+	if p, msg := c12Try(func() { skip.IncrementProposerPriority(k) }); p {
+		o.Viol("panic-increment", msg+" (round-skip check) "+ctx())
+		return
+	}
+	if p, msg := c12Try(func() {
+		for i := int64(0); i < k; i++ {
+			step.IncrementProposerPriority(1)
+		}
+	}); p {
+		o.Viol("panic-increment", msg+" (round-skip check) "+ctx())
+		return
+	}
+	o.Stat("roundskip.checked")
+	if skip.Proposer == nil || step.Proposer == nil {
+		return // reported by c12CheckAfterInc
+	}
+	detail := func() string {
+		return fmt.Sprintf("skip-to-round-%d proposer=%s ; round-by-round proposer=%s ; from %s ; skip -> %s ; round-by-round -> %s ; %s",
+			k, c12PropText(skip), c12PropText(step), c12ShowSet(vs), c12ShowSet(skip), c12ShowSet(step), ctx())
+	}
+	if skip.Proposer.Address != step.Proposer.Address {
+		o.Viol("round-skip-proposer-differs", detail())
+	} else if !c12EqVals(c12Snap(skip), c12Snap(step)) {
+		o.Viol("round-skip-priorities-differ", detail())
+	}
+}
+
+// directed regression case for C12-P1: genesis {1:2, 2:6, 3:10}; block 1 removes validator 2 and
+// adds validator 4 with power 1.  NewValidatorSet / CopyIncrementProposerPriority(1) /
+// UpdateWithChangeSet / IncrementProposerPriority(1) are exactly the calls of MakeGenesisState and
+// updateState; the resulting set (priorities 4, 11, -15; T = 13; spread 26 = 2T) is cs.Validators
+// two heights later, where a node entering round 1 then round 2 and a node skipping to round 2
+// must agree (before the fix: proposers 3 and 1).
+func c12Directed(o *vfOut) {
+	var hist []string
+	ctx := func() string { return "directed C12-P1 history: " + strings.Join(hist, " ; ") }
+	op := func(line, real string) {
+		hist = append(hist, line)
+		o.Op(c12Model, line, real)
+	}
+	defer func() {
+		if rec := recover(); rec != nil {
+			o.Viol("panic-in-case", fmt.Sprintf("%v %s", rec, ctx()))
+		}
+		o.Case("directed-c12p1", true)
+	}()
+	a1, a2, a3, a4 := c12Addrs[1], c12Addrs[2], c12Addrs[3], c12Addrs[4] // increasing addresses
+	gen := []*Validator{NewValidator(a1, 2), NewValidator(a2, 6), NewValidator(a3, 10)}
+	op("case", "ok")
+	vs := NewValidatorSet(c12CopyChanges(gen)) // state.Validators
+	op("new "+c12ShowChanges(gen), "ok "+c12ShowSet(vs))
+	next := vs.CopyIncrementProposerPriority(1) // state.NextValidators
+	op("cinc 1", c12ShowSet(next))
+	vs = next
+	op("swap", c12ShowSet(vs))
+	ups := []*Validator{NewValidator(a2, 0), NewValidator(a4, 1)}
+	line := "upd " + c12ShowChanges(ups)
+	if err := vs.UpdateWithChangeSet(c12CopyChanges(ups)); err != nil {
+		o.Viol("update-rejection-rule", fmt.Sprintf("got=%q want=\"\" %s", c12ErrClass(err), ctx()))
+		op(line, "err "+c12ErrClass(err)+" "+c12ShowSet(vs))
+		return
+	}
+	op(line, "ok "+c12ShowSet(vs))
+	vs.IncrementProposerPriority(1) // updateState
+	op("inc 1", c12ShowSet(vs))
+	c12CheckAfterInc(o, vs, 1, ctx)
+	for k := int64(2); k <= 5; k++ {
+		c12CheckRoundSkip(o, vs, k, ctx)
+	}
+	// the same through the model: skip to round 2 on a copy, then rounds 1 and 2 one by one
+	skip := vs.CopyIncrementProposerPriority(2)
+	op("cinc 2", c12ShowSet(skip))
+	c12CheckAfterInc(o, skip, 2, ctx)
+	vs.IncrementProposerPriority(1)
+	op("inc 1", c12ShowSet(vs))
+	vs.IncrementProposerPriority(1)
+	op("inc 1", c12ShowSet(vs))
+	if !c12SameSet(vs, skip) {
+		o.Viol("round-skip-proposer-differs", fmt.Sprintf("skip-to-round-2 proposer=%s ; round-by-round proposer=%s ; skip -> %s ; round-by-round -> %s ; %s",
+			c12PropText(skip), c12PropText(vs), c12ShowSet(skip), c12ShowSet(vs), ctx()))
+	}
+	o.Stat("directed.c12p1")
 }
 
 // the two normalisation steps on copies of the real object
@@ -886,6 +983,7 @@ func TestVerifC12(t *testing.T) {
 	defer o.Close()
 	seed := vfSeed()
 	n := vfN(300)
+	c12Directed(o)
 	for i := 0; i < n; i++ {
 		c12Case(o, vfFork(seed, uint64(i)), i)
 	}
@@ -953,6 +1051,9 @@ func c12Case(o *vfOut, r *vfRand, idx int) {
 	nops := 6 + r.Intn(16)
 	changed := false
 	for j := 0; j < nops; j++ {
+		if len(vs.Validators) > 0 && r.Chance(25) {
+			c12CheckRoundSkip(o, vs, int64(2+r.Intn(4)), ctx)
+		}
 		c := r.Intn(100)
 		if (idx%500 == 7 || idx%50 == 9) && j == 2 {
 			c = 0
